@@ -766,6 +766,58 @@ Proof.
   eapply Fin; eauto.
 Qed.
 
+(* ------------------------------------------------------------------ a string with a sign is never an identifier *)
+Hypothesis LWd : forall r l, In r G -> In l (s_labels r) -> word l.
+
+Lemma key_nosign k c : In k (map fst (m_keys M)) -> In c k -> is_sign c = false.
+Proof.
+  intros Hk Hc. apply (keys_fst G M LD) in Hk as [Hk|(_ & r & Hr & Hl)].
+  - pose proof WF as (_ & _ & LG). destruct (LG k Hk) as (_ & H & _). destruct (H c Hc) as (_ & H2 & H3).
+    unfold is_sign. apply N.eqb_neq in H2, H3. rewrite H2, H3. reflexivity.
+  - pose proof (LWd r k Hr Hl) as W. unfold word in W. rewrite forallb_forall in W. apply word_not_special. auto.
+Qed.
+Lemma sign_miss t c : In c t -> is_sign c = true ->
+  lookup t (m_keys M) = None /\ filter (fun k => (3 <? length k) && startswith k t) (map fst (m_keys M)) = [].
+Proof.
+  intros Hc Hs. split.
+  - destruct (lookup t (m_keys M)) as [v|] eqn:E; auto. exfalso. apply lookup_In in E.
+    assert (Hk : In t (map fst (m_keys M))) by (apply in_map_iff; exists (t, v); auto).
+    rewrite (key_nosign t c Hk Hc) in Hs. discriminate.
+  - destruct (filter _ (map fst (m_keys M))) as [|k tl] eqn:F; auto. exfalso.
+    assert (Hk : In k (filter (fun k => (3 <? length k) && startswith k t) (map fst (m_keys M)))) by (rewrite F; left; auto).
+    apply filter_In in Hk as [Hk Hsw]. apply andb_true_iff in Hsw as [_ Hsw]. apply startswith_app in Hsw as (r & ->).
+    rewrite (key_nosign (t ++ r) c Hk (in_or_app _ _ _ (or_introl Hc))) in Hs. discriminate.
+Qed.
+Lemma rfi_sign t lbl c : In c t -> is_sign c = true -> lbl_ok lbl ->
+  exists e, doc_err e /\ revision_for_ident M (Some t) lbl = Err e.
+Proof.
+  intros Hc Hs HL. destruct (sign_miss t c Hc Hs) as [E1 E2].
+  assert (Nt : t <> []) by (intros ->; destruct Hc).
+  destruct lbl as [L|].
+  - destruct HL as (PL & NL & WL). unfold revision_for_ident. destruct NL as [NEL NL'].
+    destruct L as [|c0 L0]; [congruence|]. cbn [nonempty]. set (L := c0 :: L0) in *.
+    destruct (rfi0_doc L NEL) as [D1 S1]. destruct (revision_for_ident0 M (Some L)) as [o|e]; cbn [bind]; [|eauto].
+    destruct (S1 o eq_refl) as (br & -> & Hbr). rewrite E1. destruct t as [|c1 t1]; [congruence|]. rewrite E2.
+    unfold filter_for_lineage. rewrite (rrn_plain M L PL). cbn. exists EResolution. split; [left; auto|reflexivity].
+  - unfold revision_for_ident, revision_for_ident0. rewrite E1. destruct t as [|c1 t1]; [congruence|]. rewrite E2.
+    exists EResolution. split; [left; auto|reflexivity].
+Qed.
+
+Lemma digits_val_all ds : forall acc, forallb is_digit ds = true -> digits_val acc ds true = Some (digits_num acc ds).
+Proof.
+  induction ds as [|c r IH]; intros acc H; cbn [digits_val digits_num forallb] in *; [reflexivity|].
+  apply andb_true_iff in H as [Hc Hr]. rewrite Hc. apply IH; auto.
+Qed.
+Lemma py_int_minus ds : digits ds -> py_int (c_minus :: ds) = Some (- digits_num 0 ds)%Z.
+Proof.
+  intros [NE Hd]. unfold py_int. rewrite N.eqb_refl. destruct ds as [|c r]; [congruence|].
+  cbn [digits_val forallb] in *. apply andb_true_iff in Hd as [Hc Hr]. rewrite Hc. rewrite digits_val_all by auto. reflexivity.
+Qed.
+Lemma digits_num_nonneg ds : forall acc, (0 <= acc)%Z -> (0 <= digits_num acc ds)%Z.
+Proof.
+  induction ds as [|c r IH]; cbn [digits_num]; intros acc Ha; auto. apply IH. pose proof (N2Z.is_nonneg (c - 48)). lia.
+Qed.
+
 (* ------------------------------------------------------------------ helpers for the relative forms *)
 Lemma dec_digits ds : forall a, dec_val a ds = digits_num a ds.
 Proof. induction ds as [|c ds IH]; intros a; cbn [dec_val digits_num]; auto. rewrite IH. f_equal. lia. Qed.
@@ -966,18 +1018,37 @@ Definition rel_z (sg:N) (ds:str) : Z := if N.eqb sg c_minus then (- dec_val 0 ds
 Lemma rel_z_val sg ds : rel_val sg ds = rel_z sg ds.
 Proof. unfold rel_val, rel_z. rewrite dec_digits. reflexivity. Qed.
 
-Lemma rel_common lbl t c cur (i:ident) : has_at t = false -> In c t -> is_sign c = true -> t <> [] -> lbl_ok lbl ->
-  i_rel i <> None ->
-  let ob := run_query (Ok M) cur (qstr lbl t) in
+Lemma rel_common lbl w sg ds cur : word w -> is_sign sg = true -> digits ds -> lbl_ok lbl ->
+  let i := mkIdent lbl (match w with [] => None | _ => Some (classify_word w) end) (Some (rel_z sg ds)) in
+  let ob := run_query (Ok M) cur (qstr lbl (w ++ sg :: ds)) in
   agree (ref_revs G i) (o_revs ob) = true /\ agree (ref_rev G i) (o_rev ob) = true /\ agree (ref_num G i) (o_num ob) = true.
 Proof.
-  intros NA Hc Hs Nt HL HR ob. pose proof (rrn_rel lbl t c NA Hc Hs HL) as RR.
-  assert (X1 : ref_revs G i = XLoose) by (unfold ref_revs; destruct (i_rel i); [reflexivity|congruence]).
-  assert (X2 : ref_rev G i = XLoose) by (unfold ref_rev; destruct (i_rel i); [reflexivity|congruence]).
-  assert (X3 : ref_num G i = XLoose) by (unfold ref_num; destruct (i_rel i); [reflexivity|congruence]).
-  rewrite X1, X2, X3. unfold ob, run_query. cbn [bind o_revs o_rev o_num]. repeat split.
-  - apply agree_loose_obs; [intros a; eauto|]. eapply revs_doc; eauto.
-  - apply agree_loose_obs; [intros a; eauto|]. unfold get_revision. rewrite RR. cbn [bind fst snd]. apply rfi_doc; auto.
+  intros Hw Hs Hd HL i ob. set (t := w ++ sg :: ds).
+  assert (NA : has_at t = false) by (apply rel_noat; auto).
+  assert (Hc : In sg t) by (apply in_or_app; right; left; auto).
+  assert (Nt : t <> []) by (unfold t; destruct w; discriminate).
+  pose proof (rrn_rel lbl t sg NA Hc Hs HL) as RR.
+  destruct (rfi_sign t lbl sg Hc Hs HL) as (e & De & Ee).
+  assert (X3 : ref_num G i = XLoose) by reflexivity.
+  assert (X2 : ref_rev G i = XFail) by (unfold ref_rev, i; cbn [i_rel i_sym]; destruct w; reflexivity).
+  rewrite X2, X3. unfold ob, run_query. cbn [bind o_revs o_rev o_num]. fold t. repeat split.
+  - (* get_revisions *)
+    destruct (match w with [] => (rel_z sg ds <? 0)%Z | _ => false end) eqn:NEG.
+    + assert (X1 : ref_revs G i = XLoose) by (unfold ref_revs, i; cbn [i_rel i_sym]; destruct w; [rewrite NEG; reflexivity|discriminate]).
+      rewrite X1. apply agree_loose_obs; [intros a; eauto|]. eapply revs_doc; eauto.
+    + assert (X1 : ref_revs G i = XFail) by (unfold ref_revs, i; cbn [i_rel i_sym]; destruct w; [rewrite NEG; reflexivity|reflexivity]).
+      rewrite X1.
+      assert (NN : forall z, py_int t = Some z -> (z <? 0)%Z = false).
+      { intros z P. destruct (z <? 0)%Z eqn:Z0; auto. exfalso. destruct (py_int_neg _ _ P Z0) as (r & Et).
+        unfold t in Et, P. destruct w as [|c0 w0]; cbn [app] in Et, P.
+        - inversion Et; subst sg r. rewrite (py_int_minus ds Hd) in P. inversion P; subst z.
+          unfold rel_z in NEG. change (N.eqb c_minus c_minus) with true in NEG. rewrite dec_digits in NEG. congruence.
+        - inversion Et; subst c0. unfold word in Hw. cbn in Hw. discriminate. }
+      unfold get_revisions. rewrite RR. cbn [bind fst snd].
+      assert (Normal : (rs <- mapM (fun x => revision_for_ident M (Some x) lbl) [t] ;; Ok (map elem_of_opt rs)) = Err e)
+        by (cbn [mapM]; rewrite Ee; reflexivity).
+      destruct (py_int t) as [z|] eqn:P; [rewrite (NN z eq_refl)|]; rewrite Normal; cbn [observe]; apply agree_fail; auto.
+  - unfold get_revision. rewrite RR. cbn [bind fst snd]. rewrite Ee. cbn [observe]. apply agree_fail; auto.
   - unfold as_revision_number. rewrite RR. cbn [bind fst snd observe]. destruct (streqb (qstr lbl t) s_heads); reflexivity.
 Qed.
 
@@ -1309,7 +1380,7 @@ Hypothesis LOAD : load G oracle = Ok M.
 Hypothesis WFb : wfGb G = true.
 Hypothesis RKb : rankedb G = true.
 Hypothesis LOK : load_ok G = true.
-Hypothesis LNb : forallb nonempty (all_labels G) = true.
+Hypothesis LNb : forallb (fun l => nonempty l && all_word l) (all_labels G) = true.
 Hypothesis CURb : forallb (fun c => mems c (ids G) && all_word c) cur = true.
 Let rk := rank_fuel G (length G).
 Let WF : wfG G := wfGb_wfG G WFb.
@@ -1318,7 +1389,12 @@ Let RK : ranked G rk := rankedb_ranked G RKb.
 Lemma LN : forall r l, In r G -> In l (s_labels r) -> l <> [].
 Proof.
   intros r l Hr Hl. rewrite forallb_forall in LNb. assert (H : In l (all_labels G)) by (apply in_flat_map; eauto).
-  specialize (LNb l H). destruct l; [discriminate|discriminate].
+  specialize (LNb l H). apply andb_true_iff in LNb as [H1 _]. destruct l; [discriminate|discriminate].
+Qed.
+Lemma LW : forall r l, In r G -> In l (s_labels r) -> word l.
+Proof.
+  intros r l Hr Hl. rewrite forallb_forall in LNb. assert (H : In l (all_labels G)) by (apply in_flat_map; eauto).
+  specialize (LNb l H). apply andb_true_iff in LNb as [_ H2]. exact H2.
 Qed.
 Lemma CUR : cur_ok G cur.
 Proof.
@@ -1343,13 +1419,7 @@ Proof.
     destruct (abs_query G rk oracle M LOAD WF RK lbl w cur Hw NE HL HS DG) as (A1 & A2 & A3 & A4 & A5).
     rewrite A1, A2, A3, A4, A5. reflexivity.
   - (* relative *)
-    set (t := w ++ sg :: ds).
-    assert (NA : has_at t = false) by (apply rel_noat; auto).
-    assert (Hc : In sg t) by (apply in_or_app; right; left; auto).
-    assert (Nt : t <> []) by (unfold t; destruct w; discriminate).
-    destruct (rel_common G rk oracle M LOAD WF RK LN lbl t sg cur
-                (mkIdent lbl (match w with [] => None | _ => Some (classify_word w) end) (Some (rel_z sg ds)))
-                NA Hc Hs Nt HL ltac:(cbn; discriminate)) as (A1 & A2 & A3).
+    destruct (rel_common G rk oracle M LOAD WF RK LN LW lbl w sg ds cur Hw Hs Hd HL) as (A1 & A2 & A3).
     rewrite A1, A2, A3. cbn [andb].
     destruct w as [|c0 w0].
     + (* relative to the current revisions *)
@@ -1361,11 +1431,11 @@ Proof.
         - left. apply negb_true_iff in H. destruct cur; [auto|discriminate].
         - right. destruct (filter (r_lineage G b) cur); [discriminate|discriminate]. }
       destruct (nosym_query G rk oracle M LOAD WF RK lbl sg ds cur Hs Hd HL CUR CU CD) as (A4 & A5).
-      unfold t. cbn [app]. rewrite A4, A5. reflexivity.
+      cbn [app] in *. rewrite A4, A5. reflexivity.
     + assert (HS : sym_ok G (classify_word (c0 :: w0))).
       { destruct (classify_word (c0 :: w0)); try exact I. apply name_okb_ok; auto. }
       destruct (rel_sym_query G rk oracle M LOAD WF RK lbl (c0 :: w0) sg ds cur Hw ltac:(discriminate) Hs Hd HL HS) as (A4 & A5).
-      unfold t. rewrite A4, A5. reflexivity.
+      rewrite A4, A5. reflexivity.
 Qed.
 End Query.
 
